@@ -621,11 +621,22 @@ class atom(boolean.AndRestriction):
             # we would have matched above). We intersect if we both
             # match the other's endpoint (just checking one endpoint
             # is not enough, it would give a false positive on <=2 vs >2)
-            return restricts.VersionMatch(
-                other.op, other.version, other.revision
-            ).match(ranged) and restricts.VersionMatch(
-                ranged.op, ranged.version, ranged.revision
-            ).match(other)
+            if not (
+                restricts.VersionMatch(other.op, other.version, other.revision).match(
+                    ranged
+                )
+                and restricts.VersionMatch(
+                    ranged.op, ranged.version, ranged.revision
+                ).match(other)
+            ):
+                return False
+            # Versions are dense except for revisions: nothing lies strictly
+            # between -rN and -r(N+1) of the same version (>1-r1 vs <1-r2).
+            return not (
+                len(ranged.op) == len(other.op) == 1
+                and cpv.ver_cmp(ranged.version, None, other.version, None) == 0
+                and abs(int(ranged.revision or 0) - int(other.revision or 0)) == 1
+            )
 
         if other.op == "~":
             # Other definitely matches its own version. If ranged also
